@@ -266,13 +266,17 @@ func passCase(r *evid.Run, rg *rand.Rand, i int, cs int64) {
 		pass = []byte{} // empty passphrase is a passphrase too
 	}
 	orig := append([]byte(nil), pass...)
-	sk, err := snacl.NewSecretKey(&pass, 16, 8, 1)
+	// every cost parameter set scrypt accepts is a valid stored encoding, the
+	// smallest ones included
+	cost := [][3]int{{16, 8, 1}, {2, 1, 1}, {2, 8, 1}, {4, 1, 1}, {16, 1, 2}, {32, 2, 1}, {64, 8, 2}, {8, 3, 3}}[i%8]
+	sk, err := snacl.NewSecretKey(&pass, cost[0], cost[1], cost[2])
 	if err != nil {
 		r.Violation("newsecretkey-error", err.Error(), "passphrase", cs, nil)
 		return
 	}
+	r.Hit(fmt.Sprintf("scrypt-cost-N%d-r%d-p%d", cost[0], cost[1], cost[2]), 1)
 	// independent derivation
-	want, _ := scrypt.Key(orig, sk.Parameters.Salt[:], 16, 8, 1, 32)
+	want, _ := scrypt.Key(orig, sk.Parameters.Salt[:], cost[0], cost[1], cost[2], 32)
 	if !bytes.Equal(want, sk.Key[:]) {
 		r.Violation("key-not-scrypt-of-passphrase", "NewSecretKey's key differs from scrypt(passphrase, salt)", "passphrase", cs, map[string]any{"pass": fmt.Sprintf("%x", orig)})
 	}
